@@ -15,6 +15,7 @@ from fractions import Fraction
 from hypothesis import strategies as st
 
 from .. import audio, pipeline
+from ..gen import rarely
 from ..common import REPO, HarnessError, Violation, hyp_run, import_auditok, tmpdir
 from ..oracles import exact_round, fmt_seconds3, whole_millis
 from . import c12
@@ -46,7 +47,7 @@ RULE = (
 MUST_HIT = ["input_stdin", "input_wav", "input_raw", "input_noext_f_raw", "opt_u_int", "opt_u_mix", "opt_M", "opt_L",
             "opt_q", "opt_j_without_O", "opt_O", "opt_O_raw", "opt_o", "opt_j", "fmt_S", "fmt_I", "fmt_hmsi", "fmt_unknown",
             "cli_defaults_n_m_s", "default_n", "default_m", "default_s", "default_a", "default_e",
-            "input_stdin_real_pipe", "window_not_whole_samples", "stdin_window_above_64KiB"]
+            "input_stdin_real_pipe", "window_not_whole_samples", "stdin_window_above_64KiB", "slow_consumers"]
 ASSUMPTIONS = [
     "-E, -C, -p/--save-image, -I/-F and non wav/raw formats cannot run in this sandbox (no pyaudio/pydub/ffmpeg/sox)",
     "-a values are chosen so that a*rate is an integer (window == block duration, cf. C09)",
@@ -76,7 +77,31 @@ class _FakeStdin:
         self.buffer = io.BytesIO(data)
 
 
-def run_cli(argv, stdin_data=None, pipe=False):
+@contextlib.contextmanager
+def slow_consumers(on):
+    """The printing and region-saving workers take 4 ms per detection (a slow terminal, a slow disk):
+    detections are still queued when the detector is done.  The result must not depend on it."""
+    if not on:
+        yield
+        return
+    saved = []
+    for cls in (W.PrintWorker, W.RegionSaverWorker):
+        orig = cls._process_message
+
+        def slow(self, message, _o=orig):
+            _time.sleep(0.004)
+            return _o(self, message)
+
+        saved.append((cls, orig))
+        cls._process_message = slow
+    try:
+        yield
+    finally:
+        for cls, orig in saved:
+            cls._process_message = orig
+
+
+def run_cli(argv, stdin_data=None, pipe=False, slow=False):
     """-> (status, stdout, stderr, raised exception or None, hung?)"""
     if threading.active_count() != 1:
         raise HarnessError(f"process has other live threads: {threading.enumerate()}")
@@ -96,7 +121,7 @@ def run_cli(argv, stdin_data=None, pipe=False):
         sys.stdin = _FakeStdin(stdin_data)
     status, exc, hung = None, None, False
     try:
-        with contextlib.redirect_stdout(out), contextlib.redirect_stderr(err):
+        with contextlib.redirect_stdout(out), contextlib.redirect_stderr(err), slow_consumers(slow):
             try:
                 status = CMD.main(list(argv))
             except SystemExit as e:
@@ -289,7 +314,7 @@ def check_cli(case, rec):
             argv += ["--printf", printf]
         if tfmt is not None:
             argv += ["--time-format", tfmt]
-        if printf is not None and "{timestamp}" in printf:
+        if printf is not None and "{timestamp" in printf:
             argv += ["--timestamp-format", "TS"]
         o_tmpl = O_path = None
         if opts.get("o"):
@@ -309,7 +334,9 @@ def check_cli(case, rec):
             argv.append("-q")
             classes.add("opt_q")
 
-        status, out, err, exc, hung = run_cli(argv, stdin_data, pipe=(kind == "stdin_pipe"))
+        if opts.get("slow_consumers"):
+            classes.add("slow_consumers")
+        status, out, err, exc, hung = run_cli(argv, stdin_data, pipe=(kind == "stdin_pipe"), slow=bool(opts.get("slow_consumers")))
         shown = " ".join(a if not a.startswith(d) else os.path.basename(a) for a in argv)
         if hung:
             raise Violation(f"command line did not finish: auditok {shown}", case)
@@ -513,6 +540,15 @@ def explicit_cases():
             win=[1, 3, 0, True, False], opts={}),
         cli(input="raw", audio=dflt, win=[20, 500, 30, False, False],
             opts={"dflt_n": True, "dflt_m": True, "dflt_s": True, "dflt_a": True, "dflt_e": True}),
+        cli(input="raw", opts={"O": True, "o": "d{id}", "slow_consumers": True}),
+        cli(input="stdin", audio={"sr": 10, "sw": 2, "ch": 1, "B": 1, "pat": "10" * 30, "tail": [0, 0], "al": 500, "aq": 1, "salt": 6, "uc": None},
+            win=[1, 1, 0, False, False], opts={"o": "e{id}", "slow_consumers": True, "explicit_fmt": True}),
+        # format specifications and conversions on the placeholders (the time fields are strings once formatted)
+        cli(input="raw", opts={"printf": "{id:03d}|{start:>10}|{end:<9}|{duration:^12}|", "time_format": "%h:%m:%s.%i"}),
+        cli(input="wav", opts={"printf": "{id:>4} {start!r} {end!s:>8} {duration:.3} {timestamp:>6}", "explicit_fmt": True}),
+        # more than ten thousand detections in one run (ids, order and count up to the last one)
+        cli(input="raw", audio={"sr": 10, "sw": 1, "ch": 1, "B": 1, "pat": "10" * 10100, "tail": [0, 0], "al": 60, "aq": 1, "salt": 6, "uc": None},
+            win=[1, 1, 0, False, False], opts={"printf": "{id} {start}", "time_format": "%S", "explicit_fmt": True}),
     ]
     for t in (0.0, 0.57, 1.001, 59.9996, 3599.9999, 3723.25, 0.0005, 0.0015, 123.589, 86399.9995, 999999.9999):
         for f in ("%S", "%I", "%h:%m:%s.%i", "%i|%s|%m|%h"):
@@ -593,9 +629,12 @@ def cli_strategy(draw, maxwin=20):
     o = {}
     if draw(st.booleans()):
         o["printf"] = draw(st.sampled_from(["{id} {start} {end}", "{start}\\t{end}", "{id}:{duration}|{start}",
-                                            "{timestamp} {id} {end}", "x{id}\\n{duration}", "d\u00e9tection {id} \u2192 {start}", "{id}\u00a0{end} \u20ac"]))
+                                            "{timestamp} {id} {end}", "x{id}\\n{duration}", "{id:04d}|{start:>12}|{end:<10}|{duration:^9}|",
+                                            "{id:>3} {start!r} {duration:.4} {timestamp:>5}", "d\u00e9tection {id} \u2192 {start}", "{id}\u00a0{end} \u20ac"]))
     if draw(st.booleans()):
         o["time_format"] = draw(st.sampled_from(["%S", "%I", "%h:%m:%s.%i", "%i/%s/%m/%h", "%s.%i (%h h %m m)", "%h:%m:%s.%q"]))
+    if len(c["audio"]["pat"]) <= 60 and draw(rarely(3)):
+        o["slow_consumers"] = True
     if draw(st.integers(0, 3)) == 0:
         o["M"] = [draw(st.integers(0, N + 3)), draw(st.sampled_from([0, 0.25, 0.5, 0.75]))]
     o["L"] = draw(st.booleans())
